@@ -1,0 +1,55 @@
+//! Verification hook H1 (compiled only with `--cfg delaunay_verif`): named failpoints.
+//!
+//! A failpoint is one guarded line at an internal stage of a mutating operation that returns the
+//! error the surrounding code already returns at that stage.  Disarmed it costs one thread-local
+//! read.  The harness arms exactly one name (and the ordinal of the hit that should fail), runs a
+//! public operation and compares the observable state before and after.
+#![allow(missing_docs, clippy::must_use_candidate, clippy::missing_panics_doc)]
+
+use std::cell::RefCell;
+
+thread_local! {
+    static ARMED: RefCell<Option<(&'static str, usize)>> = const { RefCell::new(None) };
+    static TRACE: RefCell<Vec<&'static str>> = const { RefCell::new(Vec::new()) };
+    static TRACING: RefCell<bool> = const { RefCell::new(false) };
+}
+
+/// Arm failpoint `name`: its `ordinal`-th hit (0-based) from now on reports failure once.
+pub fn arm(name: &'static str, ordinal: usize) {
+    ARMED.with(|a| *a.borrow_mut() = Some((name, ordinal)));
+}
+
+pub fn disarm() {
+    ARMED.with(|a| *a.borrow_mut() = None);
+}
+
+/// Start/stop recording the names of the failpoints that are reached.
+pub fn trace(on: bool) {
+    TRACING.with(|t| *t.borrow_mut() = on);
+    TRACE.with(|t| t.borrow_mut().clear());
+}
+
+pub fn take_trace() -> Vec<&'static str> {
+    TRACE.with(|t| std::mem::take(&mut *t.borrow_mut()))
+}
+
+/// Called at a failpoint site; `true` means "fail here now".
+pub fn fail(name: &'static str) -> bool {
+    if TRACING.with(|t| *t.borrow()) {
+        TRACE.with(|t| t.borrow_mut().push(name));
+    }
+    ARMED.with(|a| {
+        let mut a = a.borrow_mut();
+        match *a {
+            Some((n, 0)) if n == name => {
+                *a = None;
+                true
+            }
+            Some((n, k)) if n == name => {
+                *a = Some((n, k - 1));
+                false
+            }
+            _ => false,
+        }
+    })
+}
